@@ -306,7 +306,10 @@ def run_property(pid, tier, replay=None):
 
     os.makedirs(EVID, exist_ok=True)
     ctx_mp = mp.get_context('spawn')
-    pool = cf.ProcessPoolExecutor(max_workers=jobs(), mp_context=ctx_mp, initializer=_init_worker)
+    kw = {}
+    if getattr(mod, 'MAX_TASKS_PER_CHILD', None):
+        kw['max_tasks_per_child'] = mod.MAX_TASKS_PER_CHILD
+    pool = cf.ProcessPoolExecutor(max_workers=jobs(), mp_context=ctx_mp, initializer=_init_worker, **kw)
     ctx = Ctx(pid, mod, tier, seed, pool, t0)
     try:
         if hasattr(mod, 'drive'):
